@@ -111,9 +111,54 @@ def _api_table_from_dump(dump: dict) -> dict:
     return out
 
 
+def _interpretation(res: Result, definitions: dict) -> None:
+    """Independent pin: kv/interpret.py reads every pinned definition for every version and the *live* shipped classes must match
+    (names, order, types, nullability, tags, defaults by value, flexibility, key, header).  Catches an edit that changes the
+    generator and the shipped package consistently."""
+    import importlib
+
+    from .. import describe, interpret
+
+    for fname, d in definitions.items():
+        for v in interpret.versions_of(d):
+            res.count("interpreted_versions")
+            try:
+                m = interpret.interpret(d, v)
+                mod = importlib.import_module(m.module)
+            except Exception as exc:  # noqa: BLE001
+                res.violation(f"interpretation:{fname}:v{v}", f"pinned {fname} v{v}: {exc!r}", {"definition": fname, "version": v})
+                continue
+            live = {k: c for k, c in vars(mod).items() if isinstance(c, type) and c.__module__ == m.module and hasattr(c, "__dataclass_fields__")}
+            if set(live) != set(m.classes):
+                res.violation(f"interpretation-classes:{m.module}", f"{m.module}: classes {sorted(live)} != structures of pinned {fname} v{v} {sorted(m.classes)}", {"module": m.module})
+                continue
+            for cname, exp in m.classes.items():
+                cls = live[cname]
+                res.count("interpreted_classes")
+                problems = [msg for _, msg in interpret.compare_spec(exp, describe.spec_from_class(cls), f"{m.module}:{cname}")]
+                if bool(cls.__flexible__) != m.flexible or int(cls.__version__) != v:
+                    problems.append(f"version/flexible {int(cls.__version__)}/{cls.__flexible__} != {v}/{m.flexible}")
+                if cls.__type__.name != (m.type if cname == m.top else "nested"):
+                    problems.append(f"__type__ {cls.__type__.name}")
+                if m.api_key is not None:
+                    if int(getattr(cls, "__api_key__", -1)) != m.api_key:
+                        problems.append(f"__api_key__ {getattr(cls, '__api_key__', None)} != {m.api_key}")
+                    hs = getattr(cls, "__header_schema__", None)
+                    if hs is None or f"{hs.__module__}:{hs.__qualname__}" != m.header:
+                        problems.append(f"__header_schema__ {hs} != {m.header}")
+                for path, tname in m.custom_types.items():
+                    cn, fn = path.split(".")
+                    if cn == cname and describe.spec_from_class(cls).field(fn).pytype.__name__ != tname:
+                        problems.append(f"{fn}: entity type is not {tname}")
+                if problems:
+                    res.violation(f"interpretation-differs:{m.module}:{cname}", f"{m.module}:{cname} differs from an independent reading of pinned {fname}: {problems[:3]}",
+                                  {"module": m.module, "class": cname, "problems": problems})
+
+
 def run(prop: str, tier_: str) -> int:
     res = Result("C04", "translation_validation", tier_)
     definitions = defs.pinned_definitions()
+    _interpretation(res, definitions)
     res.coverage["programs"] = len(definitions)
     shipped_root = common.REPO_SRC / "kio" / "schema"
     runs = [None] if tier_ == "quick" else [None, 1 + common.seed(), 2 + common.seed(), 3 + common.seed()]
@@ -168,12 +213,12 @@ def run(prop: str, tier_: str) -> int:
         shutil.rmtree(tmpdir, ignore_errors=True)
     c = res.counters
     res.coverage["disagreements_checked"] = c.get("class_bodies_compared", 0) + c.get("live_classes_compared", 0) + c.get("whole_modules_compared", 0) + \
-        c.get("init_modules_compared", 0) + c.get("live_tables_compared", 0) + c.get("api_table_families", 0)
+        c.get("init_modules_compared", 0) + c.get("live_tables_compared", 0) + c.get("api_table_families", 0) + c.get("interpreted_classes", 0)
     res.coverage["exhaustive"] = True
     res.assumptions += ["pins/kafka-3.9.0 was reconstructed from the schema package at the baseline commit (no upstream copy exists offline): a pre-existing divergence "
                         "from upstream is invisible here", "comparison is per class body (normalised AST) and per live class object, because import lines depend on the "
                         "formatter the project runs after generation"]
-    floor_ok = c.get("class_bodies_compared", 0) >= 1600 and c.get("live_classes_compared", 0) >= 1600 and res.coverage.get("shipped_modules", 0) >= 600
+    floor_ok = c.get("interpreted_classes", 0) >= 1600 and c.get("class_bodies_compared", 0) >= 1600 and c.get("live_classes_compared", 0) >= 1600 and res.coverage.get("shipped_modules", 0) >= 600
     return res.finish(res.coverage["disagreements_checked"], res.coverage.get("shipped_classes", 0),
                       "all 186 pinned definitions x all versions pushed through the real generator in a scratch copy of the current codegen/ (fresh subprocess), "
                       "output compared with the shipped package: file sets, normalised AST of every class body, whole errors.py/index.py, __init__ exports, and the "
